@@ -1307,6 +1307,23 @@ fn apply_renames(fd: &FnDir, map: &[(String, String)]) -> FnDir {
     n
 }
 
+/// `x = x + e;` read as `x += e;` (anchor patterns are written against the compound form)
+fn compound_form(stmt: &str) -> Option<String> {
+    let t = stmt.trim().trim_end_matches(';').trim();
+    let (lhs, rhs) = t.split_once(" = ")?;
+    let lhs = lhs.trim();
+    let rest = rhs.trim().strip_prefix(lhs)?.trim_start();
+    let op = rest.chars().next()?;
+    if !"+-*/|&^".contains(op) {
+        return None;
+    }
+    let e = rest[1..].trim();
+    if e.is_empty() || e.starts_with('=') {
+        return None;
+    }
+    Some(format!("{} {}= {};", lhs, op, e))
+}
+
 fn main() {
     let args: Vec<String> = std::env::args().collect();
     if args.len() != 5 {
@@ -1784,7 +1801,10 @@ fn emit_fn(src: &Src, path: &str, fd: &FnDir, bm: &[(String, String)], unit: &st
                 };
                 let pn = norm_ws(pat);
                 // smallest statements whose normalised text contains the pattern
-                let mut cands: Vec<(usize, usize)> = stmts.iter().copied().filter(|r| norm_ws(src.slice(*r)).contains(&pn)).collect();
+                let mut cands: Vec<(usize, usize)> = stmts.iter().copied().filter(|r| {
+                    let t = norm_ws(src.slice(*r));
+                    t.contains(&pn) || compound_form(&t).map(|c| c.contains(&pn)).unwrap_or(false)
+                }).collect();
                 let all = cands.clone();
                 cands.retain(|a| !all.iter().any(|b| b != a && a.0 <= b.0 && b.1 <= a.1));
                 cands.sort();
